@@ -147,3 +147,22 @@ Definition synthetic_row (id_column_missing : bool) (stored : N) : bool :=
 
 Definition row_id (segment zone row : N) (id_column_missing : bool) (stored : N) : N :=
   if synthetic_row id_column_missing stored then synthetic_id zone row else stored.
+
+(** ---- response de-duplication (query/streaming/response_writer.rs [seen_ids]) ----
+    A row whose event id was already written to the response is skipped.  Rows are
+    (payload key, event id) pairs in the order they reach the writer. *)
+Fixpoint dedup_ids (seen : list N) (rows : list (N * N)) : list (N * N) :=
+  match rows with
+  | [] => []
+  | (x, id) :: r =>
+      if existsb (N.eqb id) seen then dedup_ids seen r
+      else (x, id) :: dedup_ids (id :: seen) r
+  end.
+
+(** Rows a QUERY shows after [restart_history]: the i-th applied event has payload key i. *)
+Definition number_rows (ids : list N) : list (N * N) :=
+  combine (map N.of_nat (seq 0 (length ids))) ids.
+
+Definition visible_after_restart (shard : N) (k1 : nat) (rs1 : list N) (k2 : nat) (rs2 : list N)
+  : list (N * N) :=
+  dedup_ids [] (number_rows (restart_history shard k1 rs1 k2 rs2)).
